@@ -16,6 +16,7 @@ CONSTANTS
   Cmds = {"SeekTo", "SeekBy", "SetLoop", "SetRate"}
   SeekRevives = TRUE
   SeekByHeard = TRUE
+  SafeTransport = TRUE
   Wide = FALSE
 INVARIANTS Dump PropertyHolds NoPanic TypeOK IndexInSlice WindowInSlice StoppedMeansDrained NoHang
 CHECK_DEADLOCK FALSE
